@@ -95,6 +95,19 @@ fn main() {
             };
             dispatch!(id, worker, &wa)
         }
+        "fuzzcase" => {
+            let a = (args.get(3).cloned().unwrap_or_default(), args.get(4).cloned().unwrap_or_default());
+            dispatch!(id, fuzz_file, &a)
+        }
+        "corpus" => {
+            let a = (
+                seed,
+                args.get(3).cloned().unwrap_or_default(),
+                args.get(4).cloned().unwrap_or_default(),
+                args.get(5).and_then(|s| s.parse().ok()).unwrap_or(64u64),
+            );
+            dispatch!(id, write_corpus, &a)
+        }
         "gen" => {
             let a = (
                 seed,
